@@ -231,22 +231,32 @@ func equiv(res *result, r *rand.Rand, mt protoreflect.MessageType) {
 	if err1 != nil {
 		return // e.g. invalid UTF-8 in a proto2 string: both refuse
 	}
-	g2 := mt.New().Interface()
-	d2 := dynamicpb.NewMessage(md)
+	// (a schema may give two fields the same JSON name - foo and foo_ - so that its own JSON is ambiguous: what is demanded
+	// is that the generated type treats every document exactly as the dynamic type does)
 	ju := protojson.UnmarshalOptions{AllowPartial: true}
-	if err := ju.Unmarshal(j1, g2); err != nil {
-		res.JSON = false
-		res.note("%s: generated type cannot decode dynamic JSON %s: %v", md.FullName(), j1, err)
-		return
+	for _, j := range [][]byte{j1, j2} {
+		g2 := mt.New().Interface()
+		d2 := dynamicpb.NewMessage(md)
+		eg, ed := ju.Unmarshal(j, g2), ju.Unmarshal(j, d2)
+		if (eg == nil) != (ed == nil) {
+			res.JSON = false
+			res.note("%s: JSON %s decodes with different verdicts: generated %v, dynamic %v", md.FullName(), j, eg, ed)
+			return
+		}
+		if eg == nil && !proto.Equal(g2, d2) {
+			res.JSON = false
+			res.note("%s: JSON %s decodes to different messages in the generated and the dynamic type", md.FullName(), j)
+			return
+		}
 	}
-	if err := ju.Unmarshal(j2, d2); err != nil {
-		res.JSON = false
-		res.note("%s: dynamic type cannot decode generated JSON %s: %v", md.FullName(), j2, err)
-		return
-	}
-	if !proto.Equal(g2, gen) || !proto.Equal(d2, dyn) {
-		res.JSON = false
-		res.note("%s: JSON cross-decoding changed the message: %s / %s", md.FullName(), j1, j2)
+	// and where the document is unambiguous, it is a round trip
+	g3 := mt.New().Interface()
+	if err := ju.Unmarshal(j2, g3); err == nil && !proto.Equal(g3, gen) {
+		d3 := dynamicpb.NewMessage(md)
+		if ju.Unmarshal(j1, d3) == nil && proto.Equal(d3, dyn) {
+			res.JSON = false
+			res.note("%s: JSON round trip changes the generated message but not the dynamic one: %s", md.FullName(), j2)
+		}
 	}
 }
 
